@@ -15,7 +15,7 @@ PROPS = {
     'C01': {
         'lean': ['Purr.Props.C01'],
         'suites': [
-            {'name': 'graph', 'fields': ['V', 'EV', 'W'], 'nontrivial': lambda rq, resp: resp.startswith('ok') and ' # EV - ' not in resp},
+            {'name': 'graph', 'fields': ['V', 'EV', 'W', 'EVR'], 'nontrivial': lambda rq, resp: resp.startswith('ok') and ' # EV - ' not in resp},
             {'name': 'read', 'fields': ['V', 'EV', 'W', 'B'], 'nontrivial': nontrivial_read},
             {'name': 'kinds'},
         ],
@@ -39,7 +39,7 @@ PROPS = {
     'C03': {
         'lean': ['Purr.Props.C03'],
         'suites': [
-            {'name': 'graph', 'fields': ['V', 'EV', 'W'], 'nontrivial': lambda rq, resp: ',55,' in rq or ',56,' in rq or ':6' in rq or ':7' in rq or '6:' in rq or '7:' in rq},
+            {'name': 'graph', 'fields': ['V', 'EV', 'W', 'EVR'], 'nontrivial': lambda rq, resp: ',55,' in rq or ',56,' in rq or ':6' in rq or ':7' in rq or '6:' in rq or '7:' in rq},
             {'name': 'read', 'fields': ['V', 'EV', 'B'], 'nontrivial': lambda rq, resp: ',55,' in resp or ',56,' in resp},
         ],
         'rule': 'graph: a stereo family (centre as root / chain atom / ring-closing atom x arrival index 0-3 x with / without virtual hydrogen x both '
@@ -50,7 +50,7 @@ PROPS = {
     'C12': {
         'lean': ['Purr.Props.C12'],
         'suites': [
-            {'name': 'graph', 'fields': ['V', 'EV', 'W'], 'nontrivial': lambda rq, resp: resp.startswith('ok') and ' # EV - ' not in resp},
+            {'name': 'graph', 'fields': ['V', 'EV', 'W', 'EVR'], 'nontrivial': lambda rq, resp: resp.startswith('ok') and ' # EV - ' not in resp},
             {'name': 'read', 'fields': ['V', 'B'], 'nontrivial': nontrivial_read},
         ],
         'rule': 'graph: all small graphs x every order of every bond list (every position of the arrival bond, every mixture of ring-closure and '
@@ -60,7 +60,7 @@ PROPS = {
     'C14': {
         'lean': ['Purr.Props.C14'],
         'suites': [
-            {'name': 'graph', 'fields': ['V', 'W'], 'nontrivial': lambda rq, resp: resp.startswith('ok') and ' # EV - ' not in resp},
+            {'name': 'graph', 'fields': ['V', 'W', 'EVR'], 'nontrivial': lambda rq, resp: resp.startswith('ok') and ' # EV - ' not in resp},
             {'name': 'read', 'fields': ['V', 'W'], 'nontrivial': nontrivial_read},
         ],
         'rule': 'the S-graph and S-read sets; every well-formed input is additionally written in three fresh threads (fresh HashMap seeds) and '
